@@ -20,7 +20,7 @@ package client
 //@ func (*chanRegistry).Channel
 //@   trusted
 //@   ensures result0 == regLookup(r, id) && (result1 <==> result0 != nil)
-//@   ensures result1 ==> chanWF(result0)
+//@   ensures result1 ==> chanWF(result0) && chanOK(result0) && result0.client.fundingWatcher != nil && result0.client.settlementWatcher != nil
 
 // ---------------------------------------------------------------------------
 // Proposal validation (C08, C12)
@@ -477,10 +477,19 @@ package client
 // handleUpdateReq: the machine mutex is held for the whole handling and released at the end; CheckUpdate comes first; every
 // hand-over of the responder (user handler, update interceptor, virtual channel handlers) happens only for a checked request.
 //@ func (*Channel).handleUpdateReq
-//@   requires chanOK(c) && reqDecoded(req) && uh != nil && pidx < 2 && mach(c).idx != pidx && !held(&c.machMtx)
+//@   requires chanOK(c) && reqDecoded(req) && uh != nil && pidx < 2 && mach(c).idx != pidx
 //@   requires c.client.fundingWatcher != nil && c.client.settlementWatcher != nil
 //@   modifies *
 //@   callsite (*Client).handleVirtualChannelFundingProposal : old(updChecked(ch, req, pidx)) && held(&ch.machMtx)
 //@   callsite (*Client).handleVirtualChannelSettlementProposal : old(updChecked(parent, req, pidx)) && held(&parent.machMtx)
 //@   callsite (*updateInterceptor).HandleUpdate : old(updChecked(r.channel, req, pidx)) && held(&r.channel.machMtx)
 //@   ensures !held(&c.machMtx)
+
+// Dispatch of an incoming update request: the sender index is the other participant of the two-party channel.
+//@ func (*Client).handleChannelUpdate
+//@   requires c != nil && c.log != nil && uh != nil && reqDecoded(m)
+//@   modifies *
+//@ func (*Client).cacheVersion1Update
+//@   requires c != nil && m != nil && reqDecoded(m)
+//@   modifies c.version1Cache.cache, c.version1Cache.cache[*], ghost("held")
+//@   ensures !held(&c.version1Cache.mu)
